@@ -23,6 +23,7 @@ RULE = ("scaled / fixed-variable / linearly and nonlinearly constrained "
 RULE += ("  Also: scaled problems whose solution sits on the bounds; unhashable callable callbacks.")
 RULE += (" Problems rich in second-order corrections.")
 RULE += (' Undefined / infinite / beyond-barrier objective values around x0: the callback is shown the raw values of the best point.')
+RULE += (" Callable callbacks that are false in a boolean context; signatures (xk, intermediate_result=None).")
 ASSUMPTIONS = [
     "solver deterministic (C11): reruns reproduce the base run up to call k",
     "optimality judged with the C03 reference model and the harness' true "
@@ -76,9 +77,9 @@ def run_case(case):
                 0, 8, int(rng.integers(1, 5)))))}}]
     cb = {"conv": str(rng.choice(["kw", "pos"])),
           "form": str(rng.choice(["def", "lambda", "object", "partial",
-                                  "unhashable"]))}
-    if cb["conv"] == "pos" and rng.random() < 0.15:
-        cb["form"] = "other_name"
+                                  "unhashable", "falsy"]))}
+    if cb["conv"] == "pos" and rng.random() < 0.25:
+        cb["form"] = str(rng.choice(["other_name", "mixed_sig"]))
     spec["callback"] = cb
     base = mrun.run(spec)
     counts = e2e.base_counts(base)
